@@ -18,3 +18,20 @@ package node
 //@   require AuthNew admin
 //@   require AuthNewWithExpiry admin
 //@ end
+
+// C19: minting and verifying credentials. A token with an expiry is minted with exactly the lifetime
+// the caller asked for (a lifetime of zero is the encoding of "never expires", so nothing may round or
+// clamp a requested lifetime on its way to the signer), for exactly the permissions asked for, with the
+// node's own key; verification goes through the one extractor the RPC server uses.
+//@ func (*module).AuthNewWithExpiry
+//@   property C19
+//@   noframe
+//@   callpre authtoken.NewSignedJWT: $arg0 == m.signer && $arg1 == permissions && $arg2 == ttl
+//@ func (*module).AuthNew
+//@   property C19
+//@   noframe
+//@   callpre authtoken.NewSignedJWT: $arg0 == m.signer && $arg1 == permissions && $arg2 == 0
+//@ func (*module).AuthVerify
+//@   property C19
+//@   noframe
+//@   callpre authtoken.ExtractSignedPermissions: $arg0 == m.verifier && $arg1 == token
